@@ -87,6 +87,14 @@ PROPS = {
         "assumptions": ["BooksQ: BankSane (LockedCoins never negative: SDK contract), EntQ, and governance has not changed the enterprise denomination (known finding C14/denom-change)",
                         "genesis: bank-lite well-formed, no vesting module accounts, empty enterprise escrow"],
     },
+    "C15": {
+        "chain": [chain("genesis", 32, 25, 400, 40)],
+        "corpus": ["witness", "regress", "known"],
+        "relevant": rel_all,
+        "level_text": "Proof: c15_import_succeeds (for every state of every run with an empty gov module account, export followed by InitChain in the repository's module order - regenerated from app.go - succeeds: the enterprise and stream balance checks pass and every registered invariant asserted by crisis holds; the imported state is given explicitly), c15_enterprise_stream_bank_lossless (bank, streams, fee, grants, allowances identical; enterprise parameters, id counter, every order, both queues rebuilt from statuses, whitelist, locked/spent books, totals observably identical), c15_double_enterprise_import_idempotent, c15_genesis_order, c15_stream_after_crisis_panics (regression witness of the repaired order defect). `..._partial`: the WRKChain/BEACON sections (counters recomputed from the newest 20,000 records) and 'same subsequent transactions have the same effects' are covered by the correspondence only.",
+        "level_note": ENT_NOTE + " Model/Genesis.lean models ExportGenesis/InitGenesis of the four modules, the module manager's order and crisis' invariant assertion. The tie is differential: on generated histories the real app is exported (ExportAppStateAndValidators), a fresh app is InitChain-ed from the export with crisis invariant checking on, all registered invariants are evaluated, the state digest and a second export are compared, and the script continues on the imported chain - all compared with the compiled model. The stream-after-crisis order defect was repaired by a fix: commit; an export taken after coins were sent to the gov module account cannot be imported (SDK gov genesis check) - recorded as a known finding.",
+        "assumptions": ["BooksQ as in C04", "nobody has sent coins to the gov module account (known finding otherwise)", "SDK modules' genesis (auth, bank, authz, feegrant, staking, gov...) is outside the model: compared section by section as JSON by the harness"],
+    },
     "C17": {
         "chain": [chain("query", 24, 20, 300, 35), chain("fees", 8, 20, 100, 30)],
         "corpus": ["witness", "regress", "known"],
